@@ -14,11 +14,22 @@ JU = 'gemdat.jumps.Jumps'
 CO = 'gemdat.collective.Collective'
 
 
+def _kind_tainted(m):
+    if m is None:
+        return False
+    if m[0] == 'SITE':
+        return len(m) > 1 and bool(m[1])
+    if m[0] == 'MIX':
+        # arithmetic on site numbers (row * n + column): the marker -1 survives inside the combined number
+        return any(_kind_tainted(x) for x in m[1:] if isinstance(x, tuple))
+    return False
+
+
 def tainted(av):
     if av is None or av.idx is None:
         return False
     members = av.idx[1] if av.idx[0] == 'JOIN' else {av.idx}
-    return any(m[0] == 'SITE' and len(m) > 1 and m[1] for m in members)
+    return any(_kind_tainted(m) for m in members)
 
 
 def declare_jumps_clean(ctx, it):
